@@ -308,8 +308,8 @@ def run(index, rep, tier):
 
     # ---- R08.9 the by-label variants select what the by-taxon variants select
     with rep.section("R08.9"):
-        rep.rule("R08.9", "the by-label variants find exactly the taxa carrying the labels: label lookup folds the query and the cached label with one method and the cache follows relabelling (C10 R10.9)")
-        rep.floor("R08.9", "borrowed obligations", 5, borrow(index, rep, "C10", {"R10.9"}, "R08.9"))
+        rep.rule("R08.9", "the by-label variants find exactly the taxa carrying the labels: label lookup folds the query and the cached label with one method, the cache follows relabelling (C10 R10.9) and every look-up method has the same defaults - all matches, the namespace's own case rule (C10 R10.10)")
+        rep.floor("R08.9", "borrowed obligations", 5, borrow(index, rep, "C10", {"R10.9", "R10.10"}, "R08.9"))
 
     # ---- R08.10 the selection may be any iterable
     with rep.section("R08.10"):
